@@ -70,29 +70,32 @@ func NewMethodEvaluator(
 	)
 	p.SetLastResolvedMethodT(nil)
 
-	if ctx.IsCheckRound() {
-		key := evaluatedObjectT.GetFrame() + evaluatedObjectT.GetObjectClass() + methodIdentifierT.ToString()
+	if ctx.IsCheckRound() && !p.IsLookahead {
 		point := p.FileName + ":" + strconv.Itoa(p.Row)
+		callerKey := ctx.GetFrame() + ctx.GetClass() + ctx.GetMethod()
 
-		callPoint :=
-			base.CallPoint{
+		for _, owner := range calleeOwners(ctx, objectT, evaluatedObjectT, methodIdentifierT.ToString()) {
+			key := owner[0] + owner[1] + methodIdentifierT.ToString()
+
+			callPoint :=
+				base.CallPoint{
+					Point:        point,
+					CallerFrame:  ctx.GetFrame(),
+					CallerClass:  ctx.GetClass(),
+					CallerMethod: ctx.GetMethod(),
+				}
+
+			base.MethodCallPoint[key] = append(base.MethodCallPoint[key], callPoint)
+
+			calleePoint := base.CalleePoint{
 				Point:        point,
-				CallerFrame:  ctx.GetFrame(),
-				CallerClass:  ctx.GetClass(),
-				CallerMethod: ctx.GetMethod(),
+				CalleeFrame:  owner[0],
+				CalleeClass:  owner[1],
+				CalleeMethod: methodIdentifierT.ToString(),
 			}
 
-		base.MethodCallPoint[key] = append(base.MethodCallPoint[key], callPoint)
-
-		callerKey := ctx.GetFrame() + ctx.GetClass() + ctx.GetMethod()
-		calleePoint := base.CalleePoint{
-			Point:        point,
-			CalleeFrame:  evaluatedObjectT.GetFrame(),
-			CalleeClass:  evaluatedObjectT.GetObjectClass(),
-			CalleeMethod: methodIdentifierT.ToString(),
+			base.MethodCalleePoint[callerKey] = append(base.MethodCalleePoint[callerKey], calleePoint)
 		}
-
-		base.MethodCalleePoint[callerKey] = append(base.MethodCalleePoint[callerKey], calleePoint)
 	}
 
 	p.LastCallT = methodIdentifierT
@@ -107,6 +110,71 @@ func NewMethodEvaluator(
 		isAmpersand:      isAmpersand,
 		callRow:          p.ErrorRow,
 	}
+}
+
+// calleeOwners names the (frame, class) pairs under which a call is filed in
+// the call graph: the class that DEFINES the method the call resolves to, for
+// the receiver's class (every member of a union receiver), or for self when
+// the call has no receiver; an inherited method is filed under the ancestor
+// that defines it. A call that resolves to nothing is filed under the
+// receiver's class as written.
+func calleeOwners(
+	ctx context.Context,
+	objectT *base.T,
+	evaluatedObjectT *base.T,
+	method string,
+) [][2]string {
+
+	owner := func(frame, class string, methodT *base.T) [2]string {
+		if methodT != nil && !methodT.IsBuiltinMethod() &&
+			(methodT.DefinedFrame != "" || methodT.DefinedClass != "") {
+			return [2]string{methodT.DefinedFrame, methodT.DefinedClass}
+		}
+
+		return [2]string{frame, class}
+	}
+
+	// no receiver: self, then a method of the top level
+	if objectT.ToString() == "" {
+		frame, class := ctx.GetFrame(), ctx.GetClass()
+
+		var methodT *base.T
+
+		if ctx.IsDefineStatic {
+			methodT = base.GetTopLevelClassMethodT(frame, class, method)
+		}
+
+		if methodT == nil {
+			methodT = base.GetTopLevelMethodT(frame, class, method)
+		}
+
+		if methodT == nil || methodT.IsBuiltinMethod() {
+			if topT := base.GetTopLevelMethodT("", "", method); topT != nil && !topT.IsBuiltinMethod() {
+				return [][2]string{{"", ""}}
+			}
+		}
+
+		return [][2]string{owner(frame, class, methodT)}
+	}
+
+	var owners [][2]string
+
+	for _, receiverT := range evaluatedObjectT.GetVariantsOrSelf() {
+		frame, class := receiverT.GetFrame(), receiverT.GetObjectClass()
+
+		var methodT *base.T
+
+		switch objectT.IsClassType() {
+		case true:
+			methodT = base.GetClassMethodT(frame, class, method, false)
+		default:
+			methodT = base.GetMethodT(frame, class, method, false)
+		}
+
+		owners = append(owners, owner(frame, class, methodT))
+	}
+
+	return owners
 }
 
 func (m *MethodEvaluator) Evaluation() error {
